@@ -662,3 +662,136 @@ func TestVerif_C40_Claims(t *testing.T) {
 		}
 	}
 }
+
+// TestVerif_C40_Encodings compares the hashing / conversion helpers with the independent encoder on inputs larger
+// than the model's (arrays of up to 130 elements move every ABI offset) and takes their error branches.
+func TestVerif_C40_Encodings(t *testing.T) {
+	kit.RequireEngine(t)
+	rep := kit.NewReport("C40", "encodings")
+	defer rep.Write(t)
+	rnd := kit.Rand(4040)
+	runs := kit.IntEnv("VERIF_RUNS", 60)
+	big32 := func(xs []uint32) []*big.Int {
+		out := make([]*big.Int, len(xs))
+		for i, x := range xs {
+			out[i] = new(big.Int).SetUint64(uint64(x))
+		}
+		return out
+	}
+	keyClasses := []string{"kFull", "kShortX", "kShortY", "kShortXY"}
+	for run := 0; run < runs; run++ {
+		key := fmt.Sprintf("enc:%d", run)
+		// ---- computeOperatorsIDsHash
+		n := []int{0, 1, 2, 51, 90, 100, 130, rnd.Intn(130)}[rnd.Intn(8)]
+		ids := make(chain.OperatorIDs, n)
+		for i := range ids {
+			ids[i] = []uint32{0, 1, 0xFFFFFFFF, rnd.Uint32(), uint32(rnd.Intn(300))}[rnd.Intn(5)]
+		}
+		h, err := computeOperatorsIDsHash(ids)
+		rep.Eval(key+"ids", map[string]interface{}{"ids": len(ids)})
+		if err != nil || h != c40.Keccak(c40.AbiEncode(c40.Arr("uint32[]", big32(ids)))) {
+			rep.Diverge("enc:membersHash", fmt.Sprintf("computeOperatorsIDsHash differs from keccak256(abi.encode(uint32[])) for %d IDs (err %v)", n, err), ids, nil, nil)
+		}
+		// ---- calculateDKGResultSignatureHash
+		cls := keyClasses[rnd.Intn(4)]
+		pub, kb, kerr := c40.GroupKey(cls, rnd.Intn(8))
+		if kerr != nil {
+			t.Fatal(kerr)
+		}
+		chainID := c40.IntOf([]string{"cMainnet", "cSepolia", "cDev", "cWide"}[rnd.Intn(4)], rnd.Intn(8))
+		sb := c40.IntOf([]string{"bZero", "bSmall", "bLarge"}[rnd.Intn(3)], rnd.Intn(8))
+		nm := []int{0, 1, 10, 11, 49, rnd.Intn(100)}[rnd.Intn(6)]
+		var misb []group.MemberIndex
+		var misbBig []*big.Int
+		for _, p := range rnd.Perm(100)[:nm] {
+			misb = append(misb, group.MemberIndex(p+1))
+		}
+		sort.Slice(misb, func(i, j int) bool { return misb[i] < misb[j] })
+		for _, m := range misb {
+			misbBig = append(misbBig, big.NewInt(int64(m)))
+		}
+		dh, err := calculateDKGResultSignatureHash(chainID, kb, misb, sb)
+		want := c40.Keccak(c40.AbiEncode(c40.U256(chainID), c40.Bytes(kb), c40.Arr("uint8[]", misbBig), c40.U256(sb)))
+		rep.Eval(key+"dkg", nil)
+		if err != nil || [32]byte(dh) != want {
+			rep.Diverge("enc:dkgHash", fmt.Sprintf("calculateDKGResultSignatureHash differs from the contract's keccak256(abi.encode(chainid, key, uint8[%d], startBlock)) (err %v)", nm, err), nil, nil, nil)
+		}
+		// the method: key marshalled from the point, indexes in any order
+		tc := c40NewChain(c40.StrangerKey(), chainID)
+		shuffled := append([]group.MemberIndex{}, misb...)
+		rnd.Shuffle(len(shuffled), func(i, j int) { shuffled[i], shuffled[j] = shuffled[j], shuffled[i] })
+		mh, err := tc.CalculateDKGResultSignatureHash(pub, shuffled, sb.Uint64())
+		if err != nil || [32]byte(mh) != want {
+			rep.Diverge("enc:dkgHashMethod", fmt.Sprintf("CalculateDKGResultSignatureHash (key class %s, unsorted indexes) differs from the contract's hash (err %v)", cls, err), nil, nil, nil)
+		}
+		for _, badLen := range []int{0, 32, 63, 65} {
+			bad := make([]byte, badLen)
+			copy(bad, kb)
+			if _, err := calculateDKGResultSignatureHash(chainID, bad, misb, sb); err == nil {
+				rep.Diverge("enc:dkgHashKeyLen", fmt.Sprintf("calculateDKGResultSignatureHash accepted a %d-byte key (the contract requires 64)", badLen), nil, nil, nil)
+			}
+			if _, err := calculateInactivityClaimHash(chainID, sb, bad, misbBig, true); err == nil {
+				rep.Diverge("enc:claimHashKeyLen", fmt.Sprintf("calculateInactivityClaimHash accepted a %d-byte key", badLen), nil, nil, nil)
+			}
+		}
+		// ---- calculateInactivityClaimHash
+		nonce := c40.IntOf([]string{"nZero", "nSmall", "nLarge"}[rnd.Intn(3)], rnd.Intn(8))
+		hb := rnd.Intn(2) == 0
+		ch, err := calculateInactivityClaimHash(chainID, nonce, kb, misbBig, hb)
+		wantC := c40.Keccak(c40.AbiEncode(c40.U256(chainID), c40.U256(nonce), c40.Bytes(kb), c40.Arr("uint256[]", misbBig), c40.Bool(hb)))
+		rep.Eval(key+"claim", nil)
+		if err != nil || [32]byte(ch) != wantC {
+			rep.Diverge("enc:claimHash", fmt.Sprintf("calculateInactivityClaimHash differs from the contract's hash (%d indexes, err %v)", nm, err), nil, nil, nil)
+		}
+		cm, err := tc.CalculateInactivityClaimHash(&inactivity.ClaimPreimage{Nonce: nonce, WalletPublicKey: pub, InactiveMembersIndexes: misb, HeartbeatFailed: hb})
+		if err != nil || [32]byte(cm) != wantC {
+			rep.Diverge("enc:claimHashMethod", fmt.Sprintf("CalculateInactivityClaimHash (key class %s) differs from the contract's hash (err %v)", cls, err), nil, nil, nil)
+		}
+		// ---- wallet ID and public key format
+		wid, err := calculateWalletID(pub)
+		ser, err2 := convertPubKeyToChainFormat(pub)
+		rep.Eval(key+"wallet", nil)
+		if err != nil || err2 != nil || !bytes.Equal(ser[:], kb) || wid != c40.Keccak(kb) {
+			rep.Diverge("enc:walletID", "wallet ID / chain format of a "+cls+" key is not keccak256(X32||Y32)", nil, nil, nil)
+		}
+		// ---- convertSignaturesToChainFormat
+		ns := []int{0, 1, 51, 90, 100, rnd.Intn(100)}[rnd.Intn(6)]
+		sigs := map[group.MemberIndex][]byte{}
+		for _, p := range rnd.Perm(255)[:ns] {
+			s := make([]byte, 65)
+			rnd.Read(s)
+			sigs[group.MemberIndex(p+1)] = s
+		}
+		idx, flat, err := convertSignaturesToChainFormat(sigs)
+		rep.Eval(key+"sigs", nil)
+		okFmt := err == nil && len(idx) == ns && len(flat) == 65*ns
+		for i := 0; okFmt && i < len(idx); i++ {
+			if i > 0 && idx[i-1] >= idx[i] {
+				okFmt = false
+			}
+			if !bytes.Equal(flat[65*i:65*i+65], sigs[idx[i]]) {
+				okFmt = false
+			}
+		}
+		if !okFmt {
+			rep.Diverge("enc:signatures", fmt.Sprintf("convertSignaturesToChainFormat: %d signatures are not returned sorted by member index and aligned (err %v)", ns, err), nil, nil, nil)
+		}
+		if ns > 0 {
+			victim := idx[rnd.Intn(len(idx))]
+			for _, l := range []int{0, 64, 66} {
+				sigs[victim] = make([]byte, l)
+				if _, _, err := convertSignaturesToChainFormat(sigs); err == nil {
+					rep.Diverge("enc:signatureLen", fmt.Sprintf("convertSignaturesToChainFormat accepted a %d-byte signature (the contract slices 65 bytes per index)", l), nil, nil, nil)
+				}
+			}
+		}
+		// ---- ABI round trip of a result (event decoding)
+		r := &tbtc.DKGChainResult{SubmitterMemberIndex: group.MemberIndex(1 + rnd.Intn(100)), GroupPublicKey: kb, MisbehavedMembersIndexes: misb,
+			Signatures: flat, SigningMembersIndexes: idx, Members: ids, MembersHash: h}
+		back, err := convertDkgResultFromAbiType(convertDkgResultToAbiType(r))
+		rep.Eval(key+"roundtrip", nil)
+		if err != nil || fmt.Sprint(*back) != fmt.Sprint(*r) {
+			rep.Diverge("enc:roundtrip", fmt.Sprintf("a result does not survive the conversion to the ABI type and back (err %v)", err), nil, nil, nil)
+		}
+	}
+}
